@@ -55,7 +55,8 @@ def api_guard(ctx):
                 _rec(d, name + "|error-propagated", r == PROP and "Regex::matcher" not in cs, "a regex that matches the empty string must make %s return that error (and create no matcher); found %s" % (name, r[:100]), loc)
             elif GUARD_C in gs:
                 seen_ok = True
-                _rec(d, name + "|guarded-ok", r == want, "%s must return %s; found %s" % (name, want[:90], r[:140]), loc)
+                alt = {"analyze": ("Result::Ok{0: AnalyzeIter::new(Regex::matcher(a1, a2))}",)}.get(name, ())  # the pattern taken from the matcher's program
+                _rec(d, name + "|guarded-ok", r == want or r in alt, "%s must return %s; found %s" % (name, want[:90], r[:140]), loc)
             else:
                 _rec(d, name + "|unguarded-path", False, "%s has a path that returns %s without consulting check_matches_empty_string() (guards %s): a nullable regex is then accepted" % (name, r[:80], gs[:2]), loc)
         if not seen_ok:
@@ -323,34 +324,62 @@ def scan_source(ctx):
 
 @rule("API-STATICS", ["C18"], floor=2)
 def api_statics(ctx):
-    """The crate's statics are exactly {BLOCK_LOOKUP: OnceLock<BlockLookup>}, not mutable, not thread-local, used
-    only through get_or_init(BlockLookup::new); BlockLookup::new reads nothing but block::ALL_BLOCKS."""
+    """Every static of the crate is an immutable, process-wide `OnceLock<T>` that memoises a constant: it is used only
+    as `S.get_or_init(f)` where f takes nothing from its environment (a function without parameters, a closure
+    without captures) and reads no other static but memos of the same kind - so what it holds cannot depend on
+    earlier calls, other Regex objects or other threads.  (BLOCK_LOOKUP, initialised by BlockLookup::new from
+    block::ALL_BLOCKS, is the one the reference tree has.)"""
     out = []
     st = ctx.f.statics
     names = sorted(s["path"] for s in st)
-    if names == ["category::BLOCK_LOOKUP"]:
-        s = st[0]
-        good = (not s["mut"]) and (not s["thread_local"]) and s["ty"] == "std::sync::OnceLock<category::BlockLookup>"
-        out.append(ok("statics") if good else bad("statics", "BLOCK_LOOKUP must be an immutable OnceLock<BlockLookup>; found %s" % s, "%s:%s" % (s["span"]["file"], s["span"]["line"])))
+    shape_bad = [s for s in st if s["mut"] or s["thread_local"] or not strip_lt(s["ty"]).startswith("std::sync::OnceLock<")]
+    if shape_bad:
+        s = shape_bad[0]
+        out.append(bad("statics", "static %s (%s) is not an immutable process-wide OnceLock: process- or thread-wide state makes results depend on earlier calls, other Regex objects or other threads" % (s["path"], s["ty"]), "%s:%s" % (s["span"]["file"], s["span"]["line"])))
+    elif "category::BLOCK_LOOKUP" in names or names:
+        out.append(ok("statics"))
     else:
-        extra = [s for s in st if s["path"] != "category::BLOCK_LOOKUP"]
-        s = extra[0] if extra else None
-        out.append(bad("statics", "the crate's statics must be exactly {category::BLOCK_LOOKUP}; found %s (process- or thread-wide state makes results depend on earlier calls, other Regex objects or other threads)" % names, "%s:%s" % (s["span"]["file"], s["span"]["line"]) if s else None))
-    # uses of BLOCK_LOOKUP
-    uses = []
+        out.append(ok("statics"))
+    # every use is get_or_init with an initialiser that takes nothing from its environment
+    short = {n: n.split("::")[-1] for n in names}
+    users = {}
+    bad_use = []
     for b in ctx.f.bodies:
         if b.from_expansion:
             continue
-        for bb, t in b.calls():
-            for a in t["args"]:
-                if a.get("k") == "const" and a.get("static", "").endswith("BLOCK_LOOKUP"):
-                    uses.append((b, bb, callee(t)[1]))
         for bi, blk in enumerate(b.blocks):
-            for s_ in blk["stmts"]:
-                if s_["k"] == "assign" and "BLOCK_LOOKUP" in json.dumps(s_["rv"]):
-                    uses.append((b, bi, "ref"))
-    users = {u[0].path for u in uses}
-    out.append(ok("static-users") if users <= {"category::block_lookup"} and users else bad("static-users", "BLOCK_LOOKUP must be used only in category::block_lookup; used in %s" % sorted(users), None))
+            if blk["cleanup"]:
+                continue
+            t = blk["term"]
+            js = json.dumps([s_ for s_ in blk["stmts"] if s_["k"] == "assign"]) + (json.dumps(t.get("args", [])) if t["k"] == "call" else "")
+            for n in names:
+                if ('"static": "%s"' % n) in js or ('"static": "%s"' % n.replace("::", "::")) in js:
+                    users.setdefault(n, set()).add(b.path)
+        for bb, t in b.calls():
+            d_, r_, fn_ = callee(t)
+            hit = [a.get("static") for a in t["args"] if a.get("k") == "const" and a.get("static")]
+            for a in t["args"]:
+                if a.get("k") in ("copy", "move") and not a["place"]["p"]:
+                    v = ctx.senv(b).operand(a)
+                    if v and v[0] == "static":
+                        hit.append(v[1])
+            for n in hit:
+                if not (r_ or "").endswith("OnceLock::<T>::get_or_init") and not (d_ or "").endswith("OnceLock::<T>::get_or_init"):
+                    bad_use.append((n, b, bb, "used through %s" % (r_ or d_)))
+                    continue
+                ini = ctx.senv(b).operand(t["args"][1]) if len(t["args"]) > 1 else None
+                okk = False
+                if ini and ini[0] == "fn":
+                    fb = ctx.body(strip_lt(ini[1])) or next((x for x in ctx.f.bodies if x.path == ini[1]), None)
+                    okk = fb is not None and fb.argc == 0
+                elif ini and ini[0] == "closure":
+                    okk = len(ini[2]) == 0
+                if not okk:
+                    bad_use.append((n, b, bb, "initialised by %s, which takes values from its environment" % (show(ini)[:80] if ini else "?")))
+    for n, b, bb, why in bad_use:
+        out.append(bad("static-use|%s|%s" % (n.split("::")[-1], b.path), "static %s is %s: it must be a memo of a constant (S.get_or_init(f) with a parameterless, capture-free f)" % (n, why), b.loc(bb)))
+    bu = users.get("category::BLOCK_LOOKUP", set())
+    out.append(ok("static-users") if (bu <= {"category::block_lookup"} and bu) or "category::BLOCK_LOOKUP" not in names else bad("static-users", "BLOCK_LOOKUP must be used only in category::block_lookup; used in %s" % sorted(bu), None))
     bl = ctx.body("category::block_lookup")
     if bl is not None:
         rs = {strip_ver(render(p.ret)) for p in ctx.walk(bl).paths}
